@@ -413,6 +413,9 @@ class MBTilesLevelCache(TileCacheBase):
         level_cache = self._get_level(level)
         if remove_all:
             level_cache.cleanup()
+            with self._mbtiles_lock:
+                # the next access has to create the level file again
+                self._mbtiles.pop(level, None)
             os.unlink(level_cache.mbtile_file)
             for file in glob.glob("%s-*" % glob.escape(level_cache.mbtile_file)):
                 os.unlink(file)
